@@ -5,6 +5,8 @@ import NmVerif.Containers.VectorProofs
 import NmVerif.Containers.VectorLedger
 import NmVerif.Containers.StaticVector
 import NmVerif.Containers.StaticVectorProofs
+import NmVerif.Containers.Either
+import NmVerif.Containers.EitherProofs
 /-
   C19 — The STL-free containers behave like their standard counterparts over any history.
   Property statements only (+ non-vacuity examples, counterexample theorems for the defects of the unchanged tree).
@@ -192,5 +194,64 @@ theorem staticVector_stale_counterexample :
     let h : List (Op Int) := [.ctor 0, .push 0 1, .push 0 2, .push 0 3, .resize 0 1, .resize 0 3]
     sviewOf (run (svecImpl 4 (0 : Int)) World.empty h) 0 = some (3, [some 1, some 2, some 3]) ∧
     bviewOf (run (boundedSpec 4 (0 : Int)) World.empty h) 0 = some (3, [some 1, some 0, some 0]) := by decide
+
+/-! ### utl::maybe, utl::either -/
+
+def maybeCfg (nt : Bool) (zero : α) : ECfg α Unit := { isMaybe := true, nt := nt, zeroL := zero, zeroR := () }
+def eitherCfg (nt : Bool) (zeroL : α) (zeroR : β) : ECfg α β := { isMaybe := false, nt := nt, zeroL := zeroL, zeroR := zeroR }
+
+/-- `maybe<T>`: after every history, for trivial and non-trivial `T`, `has_value()` and the value equal those of
+    `std::optional<T>` (`Sum α Unit`, `inr ()` = nullopt) in every slot -/
+theorem maybe_refines_option (nt : Bool) (zero : α) (h : List (EOp α Unit)) :
+    EWRel (erun (maybeCfg nt zero) EWorld.empty h) (srun true zero () (fun _ => none) h) :=
+  erun_rel (maybeCfg nt zero) (fun _ _ => rfl) h (fun _ => by simp [EWorld.empty, ORel])
+
+/-- `either<L,R>`: after every history the active alternative and its value equal those of `std::variant<L,R>` -/
+theorem either_refines_sum (nt : Bool) (zeroL : α) (zeroR : β) (h : List (EOp α β)) :
+    EWRel (erun (eitherCfg nt zeroL zeroR) EWorld.empty h) (srun false zeroL zeroR (fun _ => none) h) :=
+  erun_rel (eitherCfg nt zeroL zeroR) (fun hm => by simp [eitherCfg] at hm) h (fun _ => by simp [EWorld.empty, ORel])
+
+/-- trivial element types: there is no lifetime to manage — the ledger is never touched -/
+theorem either_trivial_no_lifetime (cfg : ECfg α β) (hnt : cfg.nt = false) (h : List (EOp α β)) :
+    (erun cfg EWorld.empty h).led = {} := erun_trivial_led cfg hnt EWorld.empty h
+
+/-- non-trivial left type: as long as no left value is ever stored (`neverLeft`), no constructor runs and no
+    lifetime error happens -/
+theorem either_nontrivial_lifetime_ok (cfg : ECfg α β) (h : List (EOp α β)) (hok : ∀ op ∈ h, neverLeft cfg op) :
+    (erun cfg EWorld.empty h).led.ctors = 0 ∧ (erun cfg EWorld.empty h).led.events = [] :=
+  (erun_neverLeft cfg h (w := EWorld.empty) ⟨by simp [EWorld.empty], rfl, rfl⟩ hok).2
+
+example : ∀ op ∈ ([.mk 0, .mkR 1 (), .assign 0 1, .copy 2 0, .setR 2 (), .destroy 0] : List (EOp Int Unit)),
+    neverLeft (maybeCfg true 0) op := by simp [neverLeft, maybeCfg]
+
+/-- the contained object's destructor is never run, whatever the history (so every constructed one leaks) -/
+theorem either_never_destroys (cfg : ECfg α β) (h : List (EOp α β)) : (erun cfg EWorld.empty h).led.dtors = 0 := by
+  have : ∀ (w : EWorld α β), (erun cfg w h).led.dtors = w.led.dtors := by
+    induction h with
+    | nil => intro w; rfl
+    | cons op h ih => intro w; simp only [erun]; rw [ih, (estep_dtors cfg w op).1]
+  rw [this]; rfl
+
+/-- `maybe<non-trivial>`: a stored value is never destroyed -/
+theorem maybe_nontrivial_leak_counterexample :
+    let L := (erun (maybeCfg true (0 : Int)) EWorld.empty [.mkL 0 5, .destroy 0]).led
+    L.ctors = 1 ∧ L.dtors = 0 := by decide
+
+/-- `maybe<non-trivial>`: `m = nothing` over a value does not destroy it either -/
+theorem maybe_nontrivial_reset_counterexample :
+    let w := erun (maybeCfg true (0 : Int)) EWorld.empty [.mkL 0 5, .setR 0 ()]
+    (w.objs 0).map Eith.get = some (some (.inr ())) ∧ (w.objs 0).map (·.left.live) = some true ∧ w.led.dtors = 0 := by decide
+
+/-- `maybe<non-trivial>`: assigning a value to a Nothing runs `T::operator=` on unconstructed storage -/
+theorem maybe_nontrivial_assign_counterexample :
+    (erun (maybeCfg true (0 : Int)) EWorld.empty [.mk 0, .setL 0 5]).led.events = [.uninitAssign] ∧
+    (erun (maybeCfg true (0 : Int)) EWorld.empty [.mk 0, .mkL 1 5, .assign 0 1]).led.events = [.uninitAssign] := by decide
+
+/-- `either<non-trivial,…>`: copy construction assigns into unconstructed storage; assignment of a LEFT source to a
+    RIGHT-tagged object placement-news over the still-alive left object; nothing is ever destroyed -/
+theorem either_nontrivial_counterexample :
+    (erun (eitherCfg true (0 : Int) (0 : Int)) EWorld.empty [.mkL 0 5, .copy 1 0]).led.events = [.uninitAssign] ∧
+    (erun (eitherCfg true (0 : Int) (0 : Int)) EWorld.empty [.mkL 0 5, .setR 0 3, .mkL 1 7, .assign 0 1]).led.events = [.overLive] ∧
+    (erun (eitherCfg true (0 : Int) (0 : Int)) EWorld.empty [.mkL 0 5, .destroy 0]).led.ctors = 1 := by decide
 
 end NmVerif.Props.C19
